@@ -45,13 +45,37 @@ func contractPackages(repo string) []string {
 	return out
 }
 
+// hasProp: p is a property id or a comma-separated list of ids.
 func hasProp(ps []string, p string) bool {
-	for _, x := range ps {
-		if x == p {
-			return true
+	for _, want := range strings.Split(p, ",") {
+		for _, x := range ps {
+			if x == want {
+				return true
+			}
 		}
 	}
 	return false
+}
+
+// claimedProps reads the property ids of the registered checks from MANIFEST.json (for -prop claimed).
+func claimedProps(path string) string {
+	data, err := os.ReadFile(path)
+	if err != nil {
+		return ""
+	}
+	var m struct {
+		Checks []struct {
+			PropertyID string `json:"property_id"`
+		} `json:"checks"`
+	}
+	if json.Unmarshal(data, &m) != nil {
+		return ""
+	}
+	var ids []string
+	for _, c := range m.Checks {
+		ids = append(ids, c.PropertyID)
+	}
+	return strings.Join(ids, ",")
 }
 
 func main() {
@@ -71,6 +95,12 @@ func main() {
 	seed := flag.Int("seed", 0, "seed (recorded; the proof is deterministic)")
 	stability := flag.Int("stability", 0, "re-run every discharged obligation with this many z3 random seeds and report the ones that do not always discharge")
 	flag.Parse()
+	label := *prop
+	if *prop == "claimed" {
+		if ids := claimedProps("MANIFEST.json"); ids != "" {
+			*prop = ids
+		}
+	}
 	t0 := time.Now()
 	// the repository needs go >= 1.26 (the default go of the sandbox is older): make `go list` use the right toolchain, offline
 	if _, err := os.Stat("/opt/veriftools/go1.26.8/bin/go"); err == nil {
@@ -238,7 +268,7 @@ func main() {
 	matchKnown := func(o *Obligation) *KnownFinding {
 		for i := range kfs {
 			k := &kfs[i]
-			if k.Status == "known" && k.Func == o.Func && k.Kind == o.Kind && (k.Clause == "" || k.Clause == o.Text) && (*prop == "all" || k.Property == *prop) {
+			if k.Status == "known" && k.Func == o.Func && k.Kind == o.Kind && (k.Clause == "" || k.Clause == o.Text) && (*prop == "all" || hasProp([]string{k.Property}, *prop)) {
 				return k
 			}
 		}
@@ -307,7 +337,7 @@ func main() {
 	}
 	// replay files + VIOLATION lines. An obligation that is claimed (discharged on the unchanged tree) and is
 	// now refuted or no longer discharged is reported; the solver gives no replayable input for quantified VCs.
-	pid := *prop
+	pid := label
 	exit := 0
 	report := append(append([]*Obligation{}, violations...), undecided...)
 	for _, o := range report {
